@@ -413,13 +413,25 @@ func partFetch() {
 			served = append(bytes.Clone(b.raw), '\n')
 		}
 		_ = gen.WriteLayoutBlob(dir, d, served)
-		_ = gen.WriteLayoutIndex(dir, []gen.Obj{{{K: "mediaType", V: b.mt}, {K: "digest", V: d}, {K: "size", V: len(b.raw)}, {K: "annotations", V: map[string]string{la.AnnotRefName: "v1"}}}})
+		// the index entry may state a size the file does not have (right digest): whatever is returned still
+		// reports the size of its own bytes
+		stated := len(b.raw)
+		sizeWrong := rng.Intn(4) == 0
+		if sizeWrong {
+			stated += 1 + rng.Intn(9)
+		}
+		_ = gen.WriteLayoutIndex(dir, []gen.Obj{{{K: "mediaType", V: b.mt}, {K: "digest", V: d}, {K: "size", V: stated}, {K: "annotations", V: map[string]string{la.AnnotRefName: "v1"}}}})
 		rc := rcx.New(nil, rcx.Opts{})
 		by := []string{"v1", d}[rng.Intn(2)]
 		m, err := rc.ManifestGet(context.Background(), rcx.DirRef(dir, by))
 		run.Eval(1)
-		wit := map[string]any{"kind": b.kind, "alg": alg, "by": by, "file_corrupted": corrupt}
-		if err == nil {
+		wit := map[string]any{"kind": b.kind, "alg": alg, "by": by, "file_corrupted": corrupt, "index_states_wrong_size": sizeWrong}
+		if sizeWrong {
+			run.Count("layout_gets_with_wrong_stated_size", 1)
+		}
+		if err != nil && sizeWrong {
+			// refusing an entry whose size is wrong is as good as correcting it
+		} else if err == nil {
 			if corrupt {
 				run.Violation("returned-for-wrong-digest/layout/"+b.kind, fmt.Sprintf("layout ManifestGet(%s) returned a manifest whose file does not hash to the digest it is stored / indexed under", by), wit)
 			} else {
@@ -810,13 +822,14 @@ func main() {
 	run = ev.Start("C02", "exploration")
 	run.Rule("manifest texts of all seven types rendered by the harness' own serializer (key order, indentation, trailing newline, unknown fields, escapes, inline data, subject, annotations, omitted mediaType; fixtures for signed schema1 and the OCI artifact manifest) " +
 		"x expected-digest sources {reference, descriptor, Docker-Content-Digest header, none} each right / wrong x sha256/sha512 x Content-Type right / wrong / absent, through manifest.New, RegClient.ManifestGet (by tag / digest, registry serving other bytes under the name, header right / wrong / absent, cache on / off) and layouts; re-push body comparison at a recording registry; " +
-		"setter programs of 0-6 calls {SetAnnotation add/replace/remove, SetConfig, SetLayers, SetManifestList, SetSubject nil/non-nil, SetOrig} with the equation checked after every call; get / edit own copy / get again histories; non-trivial = an object was returned and checked, or an edit state was checked; distinct = parameter classes")
-	run.Assume("at most one requester-side digest source (reference or descriptor) is given per case: contradictory caller input is a caller error", "signed schema1 is named by the digest of its JWS payload; size may be that of the body or of the payload",
+		"setter programs of 0-6 calls {SetAnnotation add/replace/remove, SetConfig, SetLayers, SetManifestList, SetSubject nil/non-nil, SetOrig} with the equation checked after every call; get / edit own copy / get again histories; children of (nested) indexes obtained by descriptor (size right / zero / wrong, inline data none / right / a sibling's) or by platform (get / head) over a tag, parent-digest or tag-and-parent-digest reference, registry (cache on / off) and layout; layout index entries stating a wrong size; non-trivial = an object was returned and checked, or an edit state was checked; distinct = parameter classes")
+	run.Assume("at most one requester-side digest source (reference or descriptor) is given per case: contradictory caller input is a caller error - except the library's own idiom ManifestGet(reference of the parent, WithManifestDesc(child)), where the reference says where and the descriptor says what", "signed schema1 is named by the digest of its JWS payload; size may be that of the body or of the payload",
 		"when the body declares no mediaType the announced Content-Type decides and nothing is compared")
 	partNew()
 	partFetch()
 	partSetters()
 	partHistory()
+	partDesc()
 	run.Races(func(rep string) string {
 		for _, frag := range []string{"/repo/types/manifest/", "/repo/scheme/reg/manifest.go", "/repo/internal/cache/", "/repo/scheme/ocidir/manifest.go"} {
 			if fn := ev.RaceFrame(rep, frag); fn != "" {
